@@ -8,6 +8,7 @@ from sa.cppmodel import CppModel
 from sa.model import (AnalysisError, call_tail, const_str, dotted, norm,
                       walk_local)
 from sa import tables
+from sa.pathrules import FnView
 from rules import common as K
 
 # Python name -> C++ functions implementing it
@@ -144,6 +145,16 @@ class PyFacts(object):
     fmt_receivers = {id(x.func.value) for x in walk_local(fi.node)
                      if isinstance(x, ast.Call) and isinstance(x.func, ast.Attribute)
                      and x.func.attr == 'format' and isinstance(x.func.value, ast.Constant)}
+    # a string handed to set()/frozenset() is a character class: its members
+    # are the symbols, as if written one by one
+    class_strings = set()
+    for x in walk_local(fi.node):
+      if isinstance(x, ast.Call) and isinstance(x.func, ast.Name) and \
+          x.func.id in ('set', 'frozenset') and len(x.args) == 1 and \
+          not isinstance(x.args[0], (ast.List, ast.Tuple, ast.Set)):
+        for c in ast.walk(x.args[0]):
+          if isinstance(c, ast.Constant) and isinstance(c.value, str):
+            class_strings.add(id(c))
     for x in walk_local(fi.node):
       if isinstance(x, ast.Call) and call_tail(x):
         calls.append(call_tail(x))
@@ -156,6 +167,9 @@ class PyFacts(object):
       if isinstance(x, ast.Constant) and isinstance(x.value, str) and x.value != doc \
           and id(x) not in kwarg_keys:
         v = x.value
+        if id(x) in class_strings:
+          strs.update(v)
+          continue
         if id(x) in fmt_receivers:
           v = FORMAT_RECEIVER + v
         (diag if id(x) in diag_ids else strs).add(v)
@@ -278,6 +292,28 @@ def norm_syms(ss):
 _CONSTS = {}
 
 
+def _str_value(e):
+  """constant string written as a concatenation of literals, string.<name>
+  constants and named constants."""
+  if isinstance(e, ast.Constant) and isinstance(e.value, str):
+    return e.value
+  d = dotted(e)
+  if d and d.startswith('string.') and isinstance(getattr(pystring, d[7:], None), str):
+    return getattr(pystring, d[7:])
+  if isinstance(e, ast.Name) and e.id in _CONSTS:
+    return _str_value(_CONSTS[e.id])
+  if isinstance(e, ast.BinOp) and isinstance(e.op, ast.Add):
+    l, r = _str_value(e.left), _str_value(e.right)
+    if l is not None and r is not None:
+      return l + r
+  if isinstance(e, ast.Call) and call_tail(e) == 'join' and isinstance(e.func, ast.Attribute) and \
+      const_str(e.func.value) == '' and e.args and isinstance(e.args[0], (ast.List, ast.Tuple)):
+    parts = [_str_value(x) for x in e.args[0].elts]
+    if all(p_ is not None for p_ in parts):
+      return ''.join(parts)
+  return None
+
+
 def char_class_py(expr):
   """Evaluate a character-class expression of parse.py: unions of
   set(<const>) / set(string.ascii_*) / set([..consts..]) / named constants."""
@@ -297,6 +333,9 @@ def char_class_py(expr):
     d = dotted(a)
     if d and d.startswith('string.') and hasattr(pystring, d[7:]):
       return set(getattr(pystring, d[7:]))
+    sv = _str_value(a)
+    if sv is not None:
+      return set(sv)
     v = tables.const_value(a)
     if isinstance(v, str):
       return set(v)
@@ -378,6 +417,16 @@ def run(chk):
           vals = tables.const_value(l)
           if vals and py_ops and set(vals) < set(py_ops) and len(vals) <= 4:
             py_unary = list(vals)
+  if py_unary is None:
+    # the same set written as an equality chain: `op == '-' or op == '!'`
+    for x in walk_local(pi.node):
+      if isinstance(x, ast.BoolOp) and isinstance(x.op, ast.Or) and len(x.values) >= 2 and all(
+          isinstance(v_, ast.Compare) and len(v_.ops) == 1 and isinstance(v_.ops[0], ast.Eq) and
+          isinstance(v_.left, ast.Name) and const_str(v_.comparators[0]) is not None
+          for v_ in x.values) and len({v_.left.id for v_ in x.values}) == 1:
+        vals = [const_str(v_.comparators[0]) for v_ in x.values]
+        if py_ops and set(vals) < set(py_ops) and len(vals) <= 4:
+          py_unary = vals
   if not py_ops or py_unary is None:
     raise AnalysisError('ParseInfix: operator lists not recognised')
   cf = cpp.func('ParseInfix').facts()
@@ -449,10 +498,67 @@ def run(chk):
       if keep(c) and (not out or out[-1] != c):
         out.append(c)
     return out
+  def keyword_set(name):
+    """constants a pure keyword matcher accepts (every successful return is
+    guarded by `s == const` / `s in [consts]` on its parameter), else None"""
+    fi_ = m.funcs.get(name)
+    if fi_ is None or len(fi_.params) != 1:
+      return None
+    w = FnView.of(repo, fi_)
+    acc = set()
+    n_ret = 0
+    for n_, r_ in w.returns():
+      if r_.value is None or (isinstance(r_.value, ast.Constant) and r_.value.value is None):
+        continue
+      n_ret += 1
+      here = set()
+      for e_, val in w.guards(n_):
+        if val and isinstance(e_, ast.Compare) and len(e_.ops) == 1 and \
+            dotted(e_.left) == fi_.params[0]:
+          if isinstance(e_.ops[0], ast.Eq) and const_str(e_.comparators[0]) is not None:
+            here.add(const_str(e_.comparators[0]))
+          elif isinstance(e_.ops[0], ast.In):
+            try:
+              here |= set(tables.const_value(e_.comparators[0]))
+            except AnalysisError:
+              pass
+      for h_, pol_ in w.cfg.header_of(n_):
+        t_ = getattr(w.cfg.stmt[h_], 'test', None)
+        if pol_ and isinstance(t_, ast.BoolOp) and isinstance(t_.op, ast.Or) and all(
+            isinstance(v_, ast.Compare) and len(v_.ops) == 1 and isinstance(v_.ops[0], ast.Eq)
+            and dotted(v_.left) == fi_.params[0] and const_str(v_.comparators[0]) is not None
+            for v_ in t_.values):
+          here |= {const_str(v_.comparators[0]) for v_ in t_.values}
+      if not here:
+        return None
+      acc |= here
+    return acc if n_ret else None
+
+  def canonical(order):
+    """alternatives that cannot both accept an input may be tried in either
+    order: runs of adjacent keyword matchers with disjoint keyword sets are
+    put in name order before the two parsers are compared"""
+    out, run = [], []
+    def flush():
+      sets = [keyword_set(x_) for x_ in run]
+      disjoint = all(not (sets[i] & sets[j]) for i in range(len(run)) for j in range(i))
+      out.extend(sorted(run) if disjoint else run)
+      del run[:]
+    for c_ in order:
+      if keyword_set(c_) is not None:
+        run.append(c_)
+      else:
+        flush()
+        out.append(c_)
+    flush()
+    return out
+
   for fn in ('ActuallyParseExpression', 'ParseProposition', 'ParseLiteral'):
     keep = lambda c: c.startswith('Parse') and c != fn
     pc = chain(py.facts(fn)['calls'], keep)
     cc = chain(cpp_facts(cpp, NAME_MAP.get(fn, [fn]), helpers)['calls'], keep)
+    if pc != cc and sorted(pc) == sorted(cc):
+      pc, cc = canonical(pc), canonical(cc)
     chk.ob('C06-R2', pc == cc, 'parser_cpp/logica_parse.cpp:%s' % fn,
            '%s tries %d alternatives in the Python order' % (fn, len(pc)),
            'Python order %s, C++ order %s: the first matching alternative '
